@@ -86,6 +86,31 @@ def discharge(ob, tier="quick", want_model=True):
     if z3.is_true(z3.simplify(goal)):
         ob.status, ob.backend, ob.time = "proved", "simplifier", time.time() - t0
         return ob
+    if getattr(ob, "logic", None):
+        # opt-in per contract (tag "logic=AUFLIA"): quantified array obligations whose counter-models the default
+        # strategy leaves `unknown`; unsat is a proof, sat yields the model that the native replay then judges
+        try:
+            sl = z3.SolverFor(ob.logic)
+            sl.set("rlimit", rl)
+            for c in ob.pc:
+                sl.add(c)
+            sl.add(z3.Not(goal))
+            rl_ = sl.check()
+        except z3.Z3Exception:
+            rl_ = None
+        if rl_ == z3.unsat:
+            ob.status, ob.backend, ob.time = "proved", "z3-%s(api, logic %s)" % (z3.get_version_string(), ob.logic), time.time() - t0
+            return ob
+        if rl_ == z3.sat:
+            ob.status, ob.backend = "failed", "z3-%s(api, logic %s)" % (z3.get_version_string(), ob.logic)
+            if want_model:
+                try:
+                    ob.zmodel = sl.model()
+                    ob.model = model_dict(ob.zmodel)
+                except Exception:
+                    ob.model = {}
+            ob.time = time.time() - t0
+            return ob
     if getattr(ob, "prefer_bv", False):
         r0 = try_bitblast(ob.pc, goal, rl)
         if r0 == z3.unsat:
